@@ -17,7 +17,7 @@ def lifecycle(draw):
   for _ in range(n):
     k = draw(st.sampled_from(["start", "start", "stop", "stop_quietly", "subscribe", "publish", "publish",
                               "settle", "start_object", "post", "clear", "object_publish", "race", "poison",
-                              "object_print", "wake_stale"]))
+                              "object_print", "wake_stale", "race_starts"]))
     if k in ("subscribe", "publish"):
       ops.append([k, draw(st.sampled_from(SIGS))])
     else:
@@ -52,7 +52,8 @@ class C13(Prop):
           "operations from start, stop, clear, subscribe(recorder, signal), publish(signal), settle, "
           "an object's print() (two lines handed to the shared output writer), start an ActiveObject (in half of the cases with live spy/trace output on), post to it, and 'race': stop() and start() called at the same time from two "
           "threads (afterwards: never two delivery threads of one kind alive, and a following stop() ends "
-          "everything - which call wins is not asserted), and 'poison': a subscriber whose append raises takes the lifo "
+          "everything - which call wins is not asserted), 'race_starts': start() called at the same time from two threads "
+          "(still one delivery thread of each kind), and 'poison': a subscriber whose append raises takes the lifo "
           "delivery thread down (is_alive() must then say False and the next start() brings the thread back); then stop, start, and a final round that subscribes a "
           "fresh recorder, publishes and settles. Delivery threads are identified black-box as the "
           "threads spawned during start() calls. Oracle: at every settle at most two of them are "
@@ -169,7 +170,33 @@ class C13(Prop):
       for idx, op in enumerate(case["ops"] + [["final"]]):
         where = "op %d %s" % (idx, op)
         k = op[0]
-        if k == "poison":
+        if k == "race_starts":
+          # start() called at the same time from two threads (two objects started from two threads):
+          # still one delivery thread of each kind
+          flags["race"] = True
+
+          def one_start():
+            before = set(id(t) for t in s.threads)
+            try:
+              af.start()
+            except AssertionError:
+              flags["start_assert"] = True
+          before_all = len(s.threads)
+          helpers = [ao.Thread(target=one_start, name="vfstarter%d" % j) for j in (1, 2)]
+          for h in helpers:
+            h.start()
+          for h in helpers:
+            h.join()
+          fabric_threads.extend(t for t in s.threads[before_all:] if not t.name.startswith("vfstarter"))
+          running = True
+          degraded[0] = False
+          s.quiesce()
+          for kind in ("fifo", "lifo"):
+            live = [t for t in alive_fabric() if kind in t.name]
+            if len(live) > 1:
+              raise PropertyViolation("%s: after two start() calls made at the same time %d %s delivery threads are alive" % (
+                where, len(live), kind), "C13:too-many-threads")
+        elif k == "poison":
           # a subscriber whose append raises takes the lifo delivery thread down (that thread's
           # exception is expected); is_alive() must say so and the next start() must bring it back
           if running and not degraded[0]:
